@@ -5,14 +5,17 @@ package lsm
 
 import (
 	"bytes"
+	"crypto/sha256"
 	"errors"
 	"fmt"
 	"math"
 	"os"
+	"path/filepath"
 	"sort"
 	"time"
 
 	badger "github.com/dgraph-io/badger/v4"
+	"github.com/dgraph-io/badger/v4/table"
 	"github.com/dgraph-io/badger/v4/y"
 
 	"verifharness/internal/core"
@@ -72,10 +75,23 @@ type Stats struct {
 	ExpiredObserved, TablesMax, LevelsMax, ConcurrentTxnReads     int
 	MultiVersionKeys, CompactedMultiVersion, DiscardMoves         int
 	ManagedLowerWrite, ReadOnlyOpens, CheckAlls, ThresholdCrossed int
+	MultiTableLevel, CommitsAfterReopen, CompactAfterExpiry       int
+	HitKnown, GCFailed                                            int
 	Excluded                                                      int
 }
 
 const clockBase = 1_000_000
+
+// errKnown ends a program early because it ran into a listed known finding.
+var errKnown = errors.New("known finding reached")
+
+func staleKey(key []byte, ver uint64) string { return fmt.Sprintf("%x@%d", key, ver) }
+
+// knownStale reports whether serving version ver of key is the listed finding
+// gc-old-version-resurfaces (never in Strict mode).
+func (in *Interp) knownStale(key []byte, ver uint64) bool {
+	return !in.Strict && in.stale[staleKey(key, ver)]
+}
 
 type heldIter struct {
 	it      *badger.Iterator
@@ -90,6 +106,7 @@ type heldItem struct {
 	item *badger.Item
 	want model.Ver
 	key  []byte
+	gcAt int // number of successful GC rewrites when the item was obtained
 }
 
 type txnState struct {
@@ -126,6 +143,13 @@ type Interp struct {
 	discard      uint64 // managed mode discardTs
 	St           Stats
 	step         int
+	thr0         int64
+	// Strict disables every known-finding exclusion (used by the known-finding witness tests).
+	Strict bool
+	// stale holds (key, version) pairs that were present in the tree below a newer version of
+	// the same key when a value log GC rewrite succeeded: the rewrite may have re-inserted them
+	// above the newer versions (known finding gc-old-version-resurfaces).
+	stale map[string]bool
 	// hooks for derived checks
 	OnReopen func(in *Interp) error
 	Lenient  bool // AllVersions results compared as mustRetain ⊆ seen ⊆ written (always true after compactions)
@@ -200,6 +224,7 @@ func (in *Interp) Open() error {
 		return fmt.Errorf("open: %v", err)
 	}
 	in.db = db
+	in.thr0 = db.VerifValueThreshold()
 	return nil
 }
 
@@ -297,9 +322,52 @@ func (in *Interp) expectGet(ts *txnState, key []byte) (*model.Item, bool) {
 	}
 	v := in.m.Visible(key, ts.readTs)
 	if v == nil {
+		if nv := in.m.Newest(key, ts.readTs); nv != nil && !nv.Deleted {
+			in.St.ExpiredObserved++
+		}
 		return nil, false
 	}
 	return &model.Item{Key: key, Version: v.Ts, Val: v.Val, UserMeta: v.UserMeta, ExpiresAt: v.ExpiresAt, Discard: v.Discard}, false
+}
+
+// keyDump describes the model's and the DB's version lists of one key (for failure messages).
+func (in *Interp) keyDump(key []byte) string {
+	var b bytes.Buffer
+	b.WriteString(" | model:")
+	for _, v := range in.m.Keys[string(key)] {
+		fmt.Fprintf(&b, " @%d", v.Ts)
+		if v.Deleted {
+			b.WriteString("(del)")
+		}
+		if v.ExpiresAt != 0 {
+			fmt.Fprintf(&b, "(exp %+d)", int64(v.ExpiresAt)-int64(in.m.Clock))
+		}
+		if v.Discard {
+			b.WriteString("(discard)")
+		}
+	}
+	b.WriteString(" | db:")
+	func() {
+		defer func() { _ = recover() }()
+		txn, _ := in.newReader()
+		defer txn.Discard()
+		o := badger.DefaultIteratorOptions
+		o.PrefetchValues = false
+		it := txn.NewKeyIterator(key, o)
+		defer it.Close()
+		for it.Rewind(); it.Valid(); it.Next() {
+			i := it.Item()
+			fmt.Fprintf(&b, " @%d", i.Version())
+			if i.IsDeletedOrExpired() {
+				b.WriteString("(dead)")
+			}
+		}
+		fmt.Fprintf(&b, " | clock %d discard<=%d tables:", in.m.Clock, in.wmax)
+		for _, t := range in.db.Tables() {
+			fmt.Fprintf(&b, " L%d#%d[%x..%x]", t.Level, t.ID, y.ParseKey(t.Left), y.ParseKey(t.Right))
+		}
+	}()
+	return b.String()
 }
 
 func (in *Interp) doGet(ts *txnState, key []byte, hold bool) error {
@@ -308,17 +376,20 @@ func (in *Interp) doGet(ts *txnState, key []byte, hold bool) error {
 	if ts.rw && !fromPending {
 		ts.reads[string(key)] = true
 	}
+	if err == nil && (want == nil || want.Version != item.Version()) && in.knownStale(key, item.Version()) {
+		return errKnown
+	}
 	if want == nil {
 		if err != badger.ErrKeyNotFound {
 			if err == nil {
-				return in.errf("Get(%x)@%d returned version %d, want ErrKeyNotFound", key, ts.readTs, item.Version())
+				return in.errf("Get(%x)@%d returned version %d, want ErrKeyNotFound%s", key, ts.readTs, item.Version(), in.keyDump(key))
 			}
-			return in.errf("Get(%x)@%d error %v, want ErrKeyNotFound", key, ts.readTs, err)
+			return in.errf("Get(%x)@%d error %v, want ErrKeyNotFound%s", key, ts.readTs, err, in.keyDump(key))
 		}
 		return nil
 	}
 	if err != nil {
-		return in.errf("Get(%x)@%d error %v, want version %d", key, ts.readTs, err, want.Version)
+		return in.errf("Get(%x)@%d error %v, want version %d%s", key, ts.readTs, err, want.Version, in.keyDump(key))
 	}
 	if e := in.checkItem(fmt.Sprintf("Get@%d", ts.readTs), item, *want, true); e != nil {
 		return e
@@ -327,7 +398,7 @@ func (in *Interp) doGet(ts *txnState, key []byte, hold bool) error {
 		in.St.ReadsAcrossMaint++
 	}
 	if hold && !fromPending {
-		ts.items = append(ts.items, &heldItem{item: item, key: key, want: model.Ver{Ts: want.Version, Val: want.Val}})
+		ts.items = append(ts.items, &heldItem{item: item, key: key, want: model.Ver{Ts: want.Version, Val: want.Val}, gcAt: in.St.GCRewrites})
 		in.St.HeldItems++
 	}
 	return nil
@@ -416,7 +487,7 @@ func (in *Interp) compareNext(ts *txnState, h *heldIter, limit int) error {
 					// beyond the retention promise can be served from a stale lower-level copy whose
 					// value log file is gone (empty value). Exactly that comparison is excluded.
 					valueToo := true
-					if in.St.GCRewrites > 0 && !w.Dead && !in.mustRetain(w) {
+					if !in.Strict && in.St.GCRewrites > 0 && !w.Dead && !in.mustRetain(w) {
 						valueToo = false
 						in.St.Excluded++
 					}
@@ -435,6 +506,9 @@ func (in *Interp) compareNext(ts *txnState, h *heldIter, limit int) error {
 				return in.errf("%s: yielded %x@%d which is not among the written versions in iterator order (expected sequence %s)", h.desc, item.Key(), item.Version(), descItems(h.want))
 			}
 		} else {
+			if (h.pos >= len(h.want) || !bytes.Equal(h.want[h.pos].Key, item.Key()) || h.want[h.pos].Version != item.Version()) && in.knownStale(item.Key(), item.Version()) {
+				return errKnown
+			}
 			if h.pos >= len(h.want) {
 				return in.errf("%s: extra item %x@%d after the %d expected (%s)", h.desc, item.Key(), item.Version(), len(h.want), descItems(h.want))
 			}
@@ -705,6 +779,9 @@ func (in *Interp) doCommit(slot int, op Op) error {
 	in.trace("committed at %d keys %v", commitTs, keysOf(keys))
 	in.commits = append(in.commits, commitRec{ts: commitTs, keys: keys})
 	in.St.Commits++
+	if in.St.Reopens > 0 {
+		in.St.CommitsAfterReopen++
+	}
 	return nil
 }
 
@@ -836,6 +913,9 @@ func (in *Interp) doCompact(op Op) error {
 		if hadDelete {
 			in.St.CompactAfterDelete++
 		}
+		if in.St.ExpiredObserved > 0 {
+			in.St.CompactAfterExpiry++
+		}
 		if in.St.MultiVersionKeys > 0 {
 			in.St.CompactedMultiVersion++
 		}
@@ -861,17 +941,49 @@ func (in *Interp) doGC(op Op) error {
 		ratio = 0.01
 	}
 	before := in.db.VerifVlogFids()
+	cands := in.staleCandidates()
 	err := in.db.RunValueLogGC(ratio)
 	in.St.GCRuns++
-	if err != nil && err != badger.ErrNoRewrite && err != badger.ErrRejected {
-		return in.errf("RunValueLogGC(%v): %v", ratio, err)
-	}
-	if err == nil {
-		in.St.GCRewrites++
+	// Any error means "this call collected nothing it can vouch for"; the statements constrain
+	// what reads return, not whether a GC call succeeds. A failed rewrite may still have written
+	// some entries back, so the stale-version bookkeeping treats it like a successful one.
+	if err != badger.ErrNoRewrite && err != badger.ErrRejected {
+		if err == nil {
+			in.St.GCRewrites++
+		} else {
+			in.St.GCFailed++
+		}
 		_ = before
+		if in.stale == nil {
+			in.stale = map[string]bool{}
+		}
+		for _, c := range cands {
+			in.stale[c] = true
+		}
 	}
 	in.epoch++
 	return nil
+}
+
+// staleCandidates lists the (key, version) pairs stored below a newer version of their key.
+func (in *Interp) staleCandidates() []string {
+	var out []string
+	txn, _ := in.newReader()
+	defer txn.Discard()
+	o := badger.DefaultIteratorOptions
+	o.AllVersions = true
+	o.PrefetchValues = false
+	it := txn.NewIterator(o)
+	defer it.Close()
+	var last []byte
+	for it.Rewind(); it.Valid(); it.Next() {
+		i := it.Item()
+		if bytes.Equal(last, i.Key()) {
+			out = append(out, staleKey(i.Key(), i.Version()))
+		}
+		last = i.KeyCopy(last)
+	}
+	return out
 }
 
 func (in *Interp) doReopen(op Op) error {
@@ -890,6 +1002,11 @@ func (in *Interp) doReopen(op Op) error {
 	}
 	if in.OnReopen != nil {
 		if err := in.OnReopen(in); err != nil {
+			return err
+		}
+	}
+	if op.A%3 == 2 {
+		if err := in.readOnlySession(); err != nil {
 			return err
 		}
 	}
@@ -915,6 +1032,9 @@ func (in *Interp) doReopen(op Op) error {
 		in.trace("reopened: MaxVersion=%d nextTxnTs=%d tables=%+v", db.MaxVersion(), db.VerifNextTxnTs(), db.Tables())
 	}
 	in.St.Reopens++
+	if err := in.checkStructure(true); err != nil {
+		return err
+	}
 	in.epoch++
 	in.noteLayout()
 	return nil
@@ -967,10 +1087,135 @@ func (in *Interp) doClock(op Op) {
 	in.St.ClockAdvances++
 }
 
+// checkStructure is the C14 predicate on the live tree: every level below L0 holds tables in key
+// order whose key ranges are disjoint even by user key (all versions of a key in one table), the
+// production level validation passes, and (on disk) the *.sst files are exactly the live tables.
+func (in *Interp) checkStructure(afterOpen bool) error {
+	if err := in.db.VerifValidateLevels(); err != nil {
+		return in.errf("level validation fails: %v", err)
+	}
+	tabs := in.db.Tables()
+	byLevel := map[int][]badger.TableInfo{}
+	ids := map[uint64]bool{}
+	for _, t := range tabs {
+		byLevel[t.Level] = append(byLevel[t.Level], t)
+		if ids[t.ID] {
+			return in.errf("table id %d listed twice", t.ID)
+		}
+		ids[t.ID] = true
+	}
+	for lvl, ts := range byLevel {
+		if lvl == 0 {
+			continue
+		}
+		sort.Slice(ts, func(i, j int) bool { return y.CompareKeys(ts[i].Left, ts[j].Left) < 0 })
+		for i := range ts {
+			if y.CompareKeys(ts[i].Left, ts[i].Right) > 0 {
+				return in.errf("level %d table %d has smallest key above biggest key", lvl, ts[i].ID)
+			}
+			if i > 0 {
+				a, b := y.ParseKey(ts[i-1].Right), y.ParseKey(ts[i].Left)
+				if bytes.Compare(a, b) >= 0 {
+					return in.errf("level %d: tables %d and %d are not disjoint by user key (%x >= %x): versions of one key are split across tables or ranges overlap", lvl, ts[i-1].ID, ts[i].ID, a, b)
+				}
+			}
+		}
+		if len(ts) >= 2 {
+			in.St.MultiTableLevel++
+		}
+	}
+	if afterOpen && !in.P.Spec.InMemory {
+		ents, err := os.ReadDir(in.dir)
+		if err != nil {
+			return in.errf("readdir: %v", err)
+		}
+		onDisk := map[uint64]bool{}
+		for _, e := range ents {
+			if id, ok := table.ParseFileID(e.Name()); ok {
+				onDisk[id] = true
+			}
+		}
+		for id := range ids {
+			if !onDisk[id] {
+				return in.errf("table %d is in the MANIFEST/levels but has no .sst file", id)
+			}
+		}
+		for id := range onDisk {
+			if !ids[id] {
+				return in.errf("file %06d.sst exists after Open but is not part of the tree", id)
+			}
+		}
+	}
+	return nil
+}
+
+// dirHash is a digest of names, sizes and contents of every file under the DB directory.
+func dirHash(dir string) (string, error) {
+	h := sha256.New()
+	ents, err := os.ReadDir(dir)
+	if err != nil {
+		return "", err
+	}
+	for _, e := range ents {
+		if e.Name() == "LOCK" {
+			continue // the pid/lock file is not data (read-only opens take a shared lock on it)
+		}
+		b, err := os.ReadFile(filepath.Join(dir, e.Name()))
+		if err != nil {
+			return "", err
+		}
+		fmt.Fprintf(h, "%s:%d:", e.Name(), len(b))
+		h.Write(b)
+	}
+	return fmt.Sprintf("%x", h.Sum(nil)), nil
+}
+
+// readOnlySession opens the closed DB read-only, reads everything and checks that no file was
+// modified, created or deleted (C07).
+func (in *Interp) readOnlySession() error {
+	before, err := dirHash(in.dir)
+	if err != nil {
+		return in.errf("hash: %v", err)
+	}
+	db, err := in.P.Spec.Open(in.dir, func(o *badger.Options) { o.ReadOnly = true })
+	if err != nil {
+		return in.errf("read-only open: %v", err)
+	}
+	in.db = db
+	in.conflictFrom = len(in.commits)
+	cerr := in.reconcileAfterReopen()
+	if cerr == nil {
+		cerr = in.CheckAll()
+	}
+	during, herr := dirHash(in.dir)
+	in.db = nil
+	if err := db.Close(); err != nil && cerr == nil {
+		cerr = in.errf("closing the read-only DB: %v", err)
+	}
+	if cerr != nil {
+		return cerr
+	}
+	after, herr2 := dirHash(in.dir)
+	if herr != nil || herr2 != nil {
+		return in.errf("hash: %v %v", herr, herr2)
+	}
+	if during != before || after != before {
+		return in.errf("a read-only open changed the directory (digest before %s, while open %s, after close %s)", before[:12], during[:12], after[:12])
+	}
+	in.St.ReadOnlyOpens++
+	return nil
+}
+
 // CheckAll compares every pool key (Get in a fresh reader and in every open transaction) and full
 // scans (forward, reverse, all versions) of a fresh reader with the model.
 func (in *Interp) CheckAll() error {
 	in.St.CheckAlls++
+	if err := in.checkStructure(false); err != nil {
+		return err
+	}
+	if thr := in.db.VerifValueThreshold(); in.thr0 != 0 && thr != in.thr0 {
+		in.St.ThresholdCrossed++
+	}
 	for _, ts := range in.txns {
 		if ts == nil {
 			continue
@@ -1007,11 +1252,20 @@ func (in *Interp) Exec() error {
 	for i, op := range in.P.Ops {
 		in.step = i
 		if err := in.execOp(op); err != nil {
-			return err
+			return in.filterKnown(err)
 		}
 	}
 	in.step = len(in.P.Ops)
-	return in.CheckAll()
+	return in.filterKnown(in.CheckAll())
+}
+
+func (in *Interp) filterKnown(err error) error {
+	if err == errKnown {
+		in.St.Excluded++
+		in.St.HitKnown++
+		return nil
+	}
+	return err
 }
 
 func (in *Interp) slot(op Op) int { return ((op.T % 4) + 4) % 4 }
@@ -1087,6 +1341,12 @@ func (in *Interp) execOp(op Op) error {
 			in.dropTxn(s)
 		case "itemread":
 			for _, h := range ts.items {
+				if !in.Strict && in.St.GCRewrites > h.gcAt {
+					// Known finding get-item-across-gc: an item obtained from Txn.Get does not pin its
+					// value log file; after a GC rewrite deleted the file its value reads as empty.
+					in.St.Excluded++
+					continue
+				}
 				got, err := h.item.ValueCopy(nil)
 				if err != nil {
 					return in.errf("held Get item %x@%d: ValueCopy error %v", h.key, h.want.Ts, err)
